@@ -263,17 +263,21 @@ type SolverCfg struct {
 }
 
 var Solvers = []SolverCfg{
-	{"z3-new", func(f string, t int) []string { return []string{"z3-new", fmt.Sprintf("-T:%d", t), "sat.random_seed=7", "smt.random_seed=7", f} }},
-	{"cvc5", func(f string, t int) []string { return []string{"cvc5", fmt.Sprintf("--tlimit=%d", t*1000), "--seed=7", f} }},
+	{"z3-new", func(f string, t int) []string {
+		return []string{"z3-new", fmt.Sprintf("-T:%d", t), "sat.random_seed=7", "smt.random_seed=7", f}
+	}},
+	{"cvc5", func(f string, t int) []string {
+		return []string{"cvc5", fmt.Sprintf("--tlimit=%d", t*1000), "--seed=7", f}
+	}},
 	{"z3", func(f string, t int) []string { return []string{"z3", fmt.Sprintf("-T:%d", t), f} }},
 }
 
 type SolveOpts struct {
-	Cross    bool // thorough tier: cross-check unsat verdicts with a second solver and the interval prover with SMT
-	Timeout  int // seconds per solver
-	Scratch  string
-	Workers  int
-	KeepAll  bool
+	Cross   bool // thorough tier: cross-check unsat verdicts with a second solver and the interval prover with SMT
+	Timeout int  // seconds per solver
+	Scratch string
+	Workers int
+	KeepAll bool
 }
 
 type SolveStats struct {
@@ -568,6 +572,7 @@ func parseValues(out string, terms []*Term) map[string]string {
 	}
 	return m
 }
+
 // SolveAll discharges all obligations with a worker pool.
 func (e *Engine) SolveAll(obs []*Oblig, opts SolveOpts) *SolveStats {
 	stats := &SolveStats{PerSolver: map[string]int{}, Secs: map[string]float64{}}
@@ -590,7 +595,6 @@ func (e *Engine) SolveAll(obs []*Oblig, opts SolveOpts) *SolveStats {
 	wg.Wait()
 	return stats
 }
-
 
 func mentionsRecApp(t *Term) bool {
 	found := false
